@@ -28,3 +28,30 @@ class RegionDecider:
 def sign_regions():
     """Representatives of {-,0,+} with two points per open region."""
     return {"-": [sp.Rational(-3, 7), sp.Integer(-5)], "0": [sp.Integer(0)], "+": [sp.Rational(2, 9), sp.Integer(11)]}
+
+
+def select_minmax(expr, rep):
+    """Replace every Min/Max (and Abs) by the branch that is active at the representative point `rep`.
+    Valid on the open region around rep on which the same branches stay active."""
+    expr = sp.sympify(expr)
+
+    def rec(e):
+        if e.is_Atom:
+            return e
+        args = [rec(a) for a in e.args]
+        if isinstance(e, (sp.Min, sp.Max)):
+            vals = [sp.N(a.subs(rep)) for a in args]
+            pick = min if isinstance(e, sp.Min) else max
+            return args[vals.index(pick(vals))]
+        if isinstance(e, sp.Abs):
+            v = sp.N(args[0].subs(rep))
+            return args[0] if v >= 0 else -args[0]
+        if isinstance(e, sp.Piecewise):
+            for val, cond in e.args:
+                c = cond.subs(rep) if cond is not sp.true else sp.true
+                if c is sp.true or c == True:  # noqa: E712
+                    return rec(val)
+            return e
+        return e.func(*args)
+
+    return rec(expr)
